@@ -167,7 +167,18 @@ struct Script {
       uint32_t type = uint32_t(r.below(5));
       uint32_t parent = Globals::kInvalidId;
       if (r.below(3) == 0) parent = labels.empty() || r.below(2) ? uint32_t(code.label_count() + 7) : labels[r.below(labels.size())].id();
+      else if (r.below(3) == 0) {
+        // boundary ids: the id the new label itself is about to get, its neighbours, and the ends of the id space
+        static const int64_t deltas[] = { 0, 1, -1, 2 };
+        uint64_t pick = r.below(6);
+        parent = pick < 4 ? uint32_t(int64_t(code.label_count()) + deltas[pick]) : pick == 4 ? 0u : 0xFFFFFFFEu;
+      }
       size_t before_count = code.label_count();
+      bool parent_exists = parent != Globals::kInvalidId && size_t(parent) < before_count;
+      // documented rules: a local label needs an existing parent; every other named label must not have one
+      bool must_refuse = !name.empty() && name.size() <= Globals::kMaxLabelNameSize &&
+                         ((type == uint32_t(LabelType::kLocal) && !parent_exists) ||
+                          (type != uint32_t(LabelType::kLocal) && type <= uint32_t(LabelType::kExternal) && parent != Globals::kInvalidId));
       Label l = a.new_named_label(name.c_str(), name.size(), LabelType(type), parent);
       ops++; g_by_api["new_named_label"]++;
       g_distinct.insert(std::string("new_named_label:") + (l.is_valid() ? "ok" : "refused"));
@@ -178,6 +189,7 @@ struct Script {
         if (eh.calls != 1) fail("new_named_label:handler-calls", "refused new_named_label('" + name.substr(0, 20) + "') called the handler " + std::to_string(eh.calls) + " times");
       }
       else {
+        if (must_refuse) fail("new_named_label:invalid-parent-accepted", "new_named_label('" + name.substr(0, 20) + "', type " + std::to_string(type) + ", parent " + std::to_string(parent) + ") with " + std::to_string(before_count) + " labels defined returned label " + std::to_string(l.id()) + " - must be refused");
         if (eh.calls) fail("new_named_label:handler-on-success", "successful new_named_label called the handler");
         labels.push_back(l); bound.push_back(false);
         if (!name.empty() && type != uint32_t(LabelType::kAnonymous) && type != uint32_t(LabelType::kLocal)) names.push_back(name);
